@@ -55,3 +55,30 @@ CHECKS.update({
                 "IP unassigned). Non-trivial = a pod identity was bound on two different nodes or a provider call failed.",
                 floors={"provider_call_failed": 0.05}),
 })
+
+CHECKS["C05"] = {"pkg": "ipamsim", "test": "TestC05", "level": "fault_enumeration",
+    "quick": {"checks": 250, "timeout": 900},
+    "thorough": {"checks": 2400, "shards": 16, "timeout": 3000, "test": "TestC05All"},
+    "rule": GEN + "Sequential histories (with reloads, API release, pool API, reservations). A fault-free run records galaxy-ipam's "
+            "API-call trace; then the history is re-executed once per selected (op, call index) x {error, crash-before, crash-after} "
+            "(quick: 4-10 generated indices per history; thorough: every index). Oracle: memory == store for every configured IP after "
+            "every completed op, a restarted plugin reconstructs the same tables, and after a crash + restart + one resync + one pod-IP "
+            "sync: ownership invariants, no leaked IP, every live bound pod owns its IP. Non-trivial = a fault index fell inside an op "
+            "issuing >= 3 API calls; evaluations counts histories, coverage.extra counts fault runs and hits per call kind.",
+    "assumptions": HIST_ASSUME + ["single fault per run; an erroring call has no effect (lost responses are not modelled)",
+                                  "crash = the operation's goroutine ends at the call (runtime.Goexit), the plugin instance is discarded and a new one is built over the same store"],
+    "allow_short": True, "floors": {"fault_hit": 0.3}}
+
+CHECKS["C07"] = hist("TestC07", "rapid draws topologies, 1-3 deployments sharing named pools that have a Pool object of size 0-4, pods with unique names "
+    "(deployment pods never reuse a name), and histories whose concurrent episodes run 2-3 of: Filter of different pods, schedule, "
+    "POST /v1/pool with preAllocateIP, pool size update, unbind - interleaved by the cooperative scheduler at every lister/IPAM/API call. "
+    "Oracle after every op and every scheduler step: #IPs keyed under pool__<name>_ <= max(count when the op/episode started, largest "
+    "size in force in truth or lister during it). Non-trivial = an episode in which >= 2 ops overlapped; distinct by SHA-1 of the case.",
+    quick=2500, thorough=120000, floors={"episode_overlapped": 0.2, "pre_allocation": 0.1})
+CHECKS["C09"] = hist("TestC09", GEN + "Sequences of 2-4 configurations (ranges shrink/grow/move, pools disappear, node subnets change), "
+    "administrator reservations (labelled FloatingIP) whose watch event is delivered early/late/never, and episodes running one reload "
+    "concurrently with schedule/bind/unbind/API release/pod-IP sync/reservation events. Oracle: no allocation or binding of a reserved or "
+    "unconfigured IP at any step; after every reload (and every episode containing one) memory == store for every configured IP, no "
+    "table entry or FloatingIP object outside the configuration. Non-trivial = a reload dropped >=1 allocated IP and kept >=1, or a "
+    "reload overlapped another operation.", quick=2500, thorough=120000, floors={"reservation": 0.03, "reload_dropped_and_kept": 0.03},
+    extra_assume=["at most one reload, one resync/pod-IP-sync pass and one informer event handler run at a time (single goroutine sources in galaxy-ipam)"])
